@@ -36,7 +36,7 @@ COQ_IMPORTS = ("From Common Require Import Res Str Cases.\n"
 SECTIONS = ["core", "audio", "alpha", "beta", "Alpha", "x y", "é"]
 KEYS = ["a", "b", "c", "mixer", "output", "cache_dir", "k é", "x.y", "n1"]
 VALUES = ["1", "2", "3", "on", "software", "a b", "x;y", "#notcomment", "a = b", "a: b", "é\U0001F600", "\\n esc",
-          "%(x)s", "[v]", "", "", "long " * 8 + "v", "a\nb", "\nm1\nm2", "a\nb c\nd", "$XDG_X/y", "~/z", "a\tb", "v#x", "v;x"]
+          "%(x)s", "[v]", "", "", "long " * 8 + "v", "a\nb", "\nm1\nm2", "a\nb c\nd", "$XDG_X/y", "~/z", "a\tb", "v#x", "v;x", "Top 40 #1 hits", "a\t#b", "x #"]
 
 
 # ------------------------------------------------------------------ abstract stacks
@@ -142,9 +142,10 @@ def gen_stack(rng):
             if "same_as_member" in fe and fe["same_as_member"][0] >= pos:
                 fe["same_as_member"][0] += 1
         files.insert(pos, new)
-    overrides = [[rng.choice(SECTIONS[:4]), rng.choice(KEYS[:5] + ["Mixer"]), rng.choice(VALUES[:12])]
+    # empty values are assignments too: "" at a higher layer blanks what a lower layer set
+    overrides = [[rng.choice(SECTIONS[:4]), rng.choice(KEYS[:5] + ["Mixer"]), rng.choice(VALUES[:12] + ["", "", ""])]
                  for _ in range(rng.choice([0, 0, 1, 2, 3]))]
-    keyring = [[rng.choice(SECTIONS[:3]), rng.choice(KEYS[:4]), rng.choice(["secret", "pä\udcffss"])]
+    keyring = [[rng.choice(SECTIONS[:3]), rng.choice(KEYS[:4]), rng.choice(["secret", "pä\udcffss", "", "x #1"])]
                for _ in range(rng.choice([0, 0, 0, 1, 2]))]
     return {"defaults": defaults, "files": files, "keyring": keyring, "overrides": overrides}
 
